@@ -353,7 +353,7 @@ func usableDSCandidate(parentDS *dns.DS, key *dns.DNSKEY) bool {
 	return KeyTag(key) == parentDS.KeyTag &&
 		key.Algorithm == parentDS.Algorithm &&
 		key.Header().Class == parentDS.Header().Class &&
-		strings.EqualFold(key.Header().Name, parentDS.Header().Name) &&
+		equalNameASCIIFold(key.Header().Name, parentDS.Header().Name) &&
 		key.Protocol == 3 &&
 		key.Flags&dns.ZONE != 0
 }
@@ -708,7 +708,7 @@ func verifyOneSigWithWork(
 		if k == nil {
 			continue
 		}
-		if strings.EqualFold(sig.SignerName, k.Header().Name) {
+		if equalNameASCIIFold(sig.SignerName, k.Header().Name) {
 			hasSigner = true
 			break
 		}
@@ -782,7 +782,7 @@ func usableSignatureCandidate(sig *dns.RRSIG, key *dns.DNSKEY) bool {
 	return KeyTag(key) == sig.KeyTag &&
 		key.Algorithm == sig.Algorithm &&
 		key.Header().Class == sig.Header().Class &&
-		strings.EqualFold(key.Header().Name, sig.SignerName) &&
+		equalNameASCIIFold(key.Header().Name, sig.SignerName) &&
 		key.Protocol == 3 &&
 		key.Flags&dns.ZONE != 0
 }
@@ -796,7 +796,7 @@ func signatureMatchesRRset(sig *dns.RRSIG, set []dns.RR) bool {
 	return header.Class == sig.Header().Class &&
 		header.Rrtype == sig.TypeCovered &&
 		dns.CountLabel(header.Name) >= int(sig.Labels) &&
-		strings.EqualFold(header.Name, sig.Header().Name) &&
+		equalNameASCIIFold(header.Name, sig.Header().Name) &&
 		dnsutil.NameInZone(strings.ToLower(dns.Fqdn(header.Name)), signer)
 }
 
